@@ -22,6 +22,9 @@ class SObj(Model):
         try:
             return st.heap[(self.name, name)]
         except KeyError:
+            m = ex.find_method(self, name)
+            if m is not None:
+                return m
             from .engine import ContractError
             raise ContractError(f'{self.name}.{name} is not bound by the contract')
 
